@@ -96,6 +96,7 @@ pub fn run_mlw(case: &WriterCase) -> Vec<OpTrace> {
                     return out;
                 }
             }
+            WOp::CloneDrop => {}
             WOp::Flush => {
                 let r = catch(|| w.flush());
                 let attempts = std::mem::take(&mut rec.borrow_mut().attempts);
@@ -162,6 +163,7 @@ pub fn run_on_sink(
                     return out;
                 }
             }
+            WOp::CloneDrop => {}
             WOp::Flush => {
                 let r = catch(|| sink.flush());
                 let attempts = to_attempts(drain(false));
@@ -235,7 +237,13 @@ pub fn run_spy_bounded(case: &WriterCase, chan_cap: usize) -> (Vec<OpTrace>, boo
             in_chan = 0;
             received.extend(got);
         }
+        if matches!(op, WOp::CloneDrop) {
+            new_counts.push(0);
+            results.push((OpKind::Flush, OpResult::Flushed));
+            continue;
+        }
         let (kind, result) = match op {
+            WOp::CloneDrop => unreachable!(),
             WOp::Emit(m) => {
                 let r = catch(|| sink.emit(m));
                 (
